@@ -599,6 +599,8 @@ impl Sim {
     /// sim lock; if it cannot proceed it returns `Block`, and is retried once
     /// the scheduler has chosen this thread again.
     pub(crate) fn op<R>(&self, me: usize, mut f: impl FnMut(&mut State) -> Step<R>) -> R {
+        // The simulator's own allocator requests are never "foreign work".
+        let _internal = crate::window::Scope::enter();
         loop {
             let mut st = self.lock();
             if st.failure.is_some() {
